@@ -500,3 +500,31 @@ func (x *Ctx) sitePaths(f *ssa.Function) []*paths.Path {
 	}
 	return out
 }
+
+// closureEnv resolves a function-valued term on path p (function literal, function, method value) to the
+// function that runs when it is called and to what its captured variables hold, as renderings in p's
+// vocabulary keyed by how the function's own terms spell them: "*fvK" for a captured variable (the value
+// last stored into its cell on p), "fvK" for a captured value, "recv" for the receiver of a method value.
+func (x *Ctx) closureEnv(p *paths.Path, t *paths.Term) (*ssa.Function, map[string]string) {
+	f, b := paths.FuncOfTerm(t)
+	if f == nil {
+		return nil, nil
+	}
+	out := map[string]string{}
+	for k, bt := range b {
+		if cell, ok := bt.Val.(*ssa.Alloc); ok && bt.Op == "alloc" {
+			var val *paths.Term
+			p.InstrsIn(func(in ssa.Instruction, c *paths.Ctx) {
+				if st, ok := in.(*ssa.Store); ok && st.Addr == ssa.Value(cell) {
+					val = c.Term(st.Val)
+				}
+			})
+			if val != nil {
+				out["*"+k] = val.String()
+				continue
+			}
+		}
+		out[k] = bt.String()
+	}
+	return f, out
+}
